@@ -89,8 +89,27 @@ def takeDigits : Bytes → Bytes × Bytes
 
 def digitsVal (ds : Bytes) : Nat := ds.foldl (fun a d => a * 10 + (d.toNat - 0x30)) 0
 
-/-- JSON number token → (raw token, int64(float64(value))) for values where the float64
-    rounding does not cross an integer (the generator guarantees it) -/
+def bitLenN (v : Nat) : Nat := if v = 0 then 0 else Nat.log2 v + 1
+
+/-- magnitude of `int64(float64(m/d))` before the range check: the IEEE-754 double nearest to
+    the rational m/d (round half to even, 53-bit significand; what `strconv.ParseFloat` returns),
+    truncated toward zero. -/
+def f64Trunc (m d : Nat) : Nat :=
+  if m = 0 ∨ d = 0 then 0
+  else
+    let e0 : Int := (bitLenN m : Int) - (bitLenN d : Int) - 53
+    let quo (e : Int) : Nat × Nat × Nat :=
+      let n' := m * 2 ^ (-e).toNat
+      let d' := d * 2 ^ e.toNat
+      (n' / d', n' % d', d')
+    let e : Int := if (quo e0).1 ≥ 2 ^ 53 then e0 + 1 else e0
+    let (q, r, d') := quo e
+    let q' := if 2 * r > d' ∨ (2 * r = d' ∧ q % 2 = 1) then q + 1 else q
+    if e ≥ 0 then q' * 2 ^ e.toNat else q' / 2 ^ (-e).toNat
+
+/-- JSON number token → `int64(float64(value))` as `serializeValue` computes it.  Values whose
+    double is outside the int64 range convert to -2^63 (the amd64 `CVTTSD2SI` result; Go leaves
+    this conversion implementation-defined). -/
 def parseNumber (bs : Bytes) : Option (Int × Bytes) :=
   let (neg, r0) := match bs with
     | 0x2d :: r => (true, r)
@@ -120,11 +139,12 @@ def parseNumber (bs : Bytes) : Option (Int × Bytes) :=
         | [] => (0, [], true)
       if !oke then none
       else
-        -- value = (ip.fp) * 10^ex = digits(ip++fp) * 10^(ex - |fp|)
+        -- value = digits(ip++fp) * 10^(ex - |fp|)
         let m := digitsVal (ip ++ fp)
         let e10 : Int := ex - fp.length
-        let mag : Nat := if e10 ≥ 0 then m * 10 ^ e10.toNat else m / 10 ^ (-e10).toNat
-        some ((if neg then -(mag : Int) else (mag : Int)), r3)
+        let mag : Nat := f64Trunc (m * 10 ^ e10.toNat) (10 ^ (-e10).toNat)
+        if mag ≥ 2 ^ 63 then some (-(2 : Int) ^ 63, r3)
+        else some ((if neg then -(mag : Int) else (mag : Int)), r3)
 
 def setKey (kvs : List (Bytes × JV)) (k : Bytes) (v : JV) : List (Bytes × JV) :=
   (kvs.filter (fun p => p.1 != k)) ++ [(k, v)]
